@@ -33,7 +33,7 @@ Theorem C09_reparse t0 p0 t p : finish_stable sh -> finish_norm_commute ->
   fields_valid cfg p0 -> build cfg sh t0 p0 = Ok (t, p) ->
   format_panics cfg sh t = false /\ parse cfg sh (format cfg sh t p) = Ok (t, norm_parts p).
 Proof.
-  intros FS FC FT FV H. destruct (build_stable cfg R Hsa Hfix Hsc Hnc Hck sh _ _ _ _ FS FV H) as (Hne & FV' & _ & _ & Hb).
+  intros FS FC FT FV H. destruct (build_stable cfg (rt_asc cfg R) (rt_ksp cfg R) Hsa Hfix Hsc Hnc Hck sh _ _ _ _ FS FV H) as (Hne & FV' & _ & _ & Hb).
   assert (Hty : valid_type cfg (sh_type sh t) = true /\ sh_from_str sh (sh_type sh t) = Ok t).
   { unfold build in H. destruct (sh_finish sh t0 p0) as [[t1 p1]|e] eqn:Ef; [|discriminate]. apply FT in Ef.
     destruct (is_empty (p_name p1)); [discriminate|]. destruct (q_get _ _ _); [|injection H as <- _; exact Ef].
